@@ -22,6 +22,8 @@ CLAIMED = {
          "4 C13", "-"),
  "C14": ("callback creation/result tables and invoke start/outcome tables for every backend status, payload and configuration",
          "4 C14", "-"),
+ "C15": ("structural induction over the value grammar on the REAL serialize/deserialize, codecs and _to_json_serializable: one obligation per constructor (None, bool, int, float, str, bytes, UUID, Decimal, datetime, date, list, tuple, string-keyed dict, batch result), children by induction hypothesis; envelope look-alikes; non-string / tuple keys and unsupported types are rejected; output never empty",
+         "4 C15", "the stdlib inverse pairs (json, base64, UUID, Decimal, isoformat) are assumed (S); non-finite floats, float rounding, huge ints and lone surrogates live inside those assumptions"),
  "C16": ("child-context size rule proved against the 256 KB constant read from the source; summary re-traversal sends no records",
          "4 C16", "determinism of the re-run body (U)"),
  "C05": ("_collect_checkpoint_batch verified with three loop invariants over a ghost hand-over order (FIFO, contiguity across batch/overflow/main, limits, overflow <= 1, progress) for every arrival pattern, size and configuration; consumer loop: exactly-once hand-over to the API, token chain, release of every synchronous element on success and on failure",
